@@ -142,6 +142,28 @@ def extra_texts(tier):
     return out
 
 
+def competing_error_texts(tier):
+    """programs in which several errors compete for being reported (collections inside the compiler decide): the report must be
+    the same every time"""
+    out = []
+    for n in (2, 3, 4, 6):
+        names = ['fw%d' % i for i in range(n)]
+        fwd = ' '.join('forward fn %s()->int;' % x for x in names)
+        use = ' + '.join('%s()' % x for x in names)
+        out.append('%s fn h()->int{ %s } let x = h();' % (fwd, use))
+        out.append('%s fn h()->int{ %s } fn k()->int{ h() } let x = k();' % (fwd, use))
+        out.append('fn w()->int{ %s fn h()->int{ %s } let x = h(); x }' % (fwd, use))
+        out.append('%s %s let x = h0();' % (fwd, ' '.join('fn h%d()->int{ %s() + h%d() }' % (i, names[i], i + 1) for i in range(n - 1)) + ' fn h%d()->int{ %s() }' % (n - 1, names[-1])))
+        out.append('%s fn h()->int{ %s } let l = ()->{ h() };' % (fwd, use))
+        out.append('%s fn h()->int{ %s } let l = [h];' % (fwd, use))
+        out.append('fn cp(%s)->int{ 1 } let x = cp(%s);' % (', '.join('a%d: int' % i for i in range(n)), ', '.join('"s%d"' % i for i in range(n))))
+        out.append('struct CS(%s) let x = CS(%s);' % (', '.join('a%d: int' % i for i in range(n)), ', '.join('"s%d"' % i for i in range(n))))
+        out.append('let x = [%s];' % ', '.join(('%d' % i) if i % 2 else '"s%d"' % i for i in range(n)))
+        out.append(' '.join('fn ovc(a: T%d)->int{ 1 }' % i for i in range(n)))
+        out.append('fn ovd<%s>(%s)->int{ 1 } let x = ovd(%s);' % (', '.join('G%d' % i for i in range(n)), ', '.join('a%d: G%d, b%d: G%d' % (i, i, i, i) for i in range(n)), ', '.join('1, "s"' for i in range(n))))
+    return out
+
+
 NEVER_EVALUATED = [
     'let a = display(1);', 'fn f()->int{ f() } let x = f();', 'fn f(n: int)->int{ f(n + 1) + 1 } let x = f(0);', 'let a = [1][5];',
     'let a = 1 / 0;', 'let a = count().to_array();', 'let a = random();', 'let a = now();', 'let a = regex("(");', 'let a = sleep(seconds(100.0));',
@@ -370,6 +392,16 @@ def run(tier):
             if frag not in text:
                 rep.fail(Failure(PROP, 'C12|type-rendering|%s|%s|type-not-rendered-in-declaration-order' % (key, frag), {'text': t}, 'a message containing %s' % frag, text[:300],
                                  {'id': 0, 'limits': {}, 'steps': [{'feed': t}]}))
+    ce = competing_error_texts(tier)
+    rep.bounds['competing_error_texts'] = len(ce)
+    reps = 8 if tier == 'quick' else 24
+    for t, res in zip(ce, pmap(_fresh_each, [([t] * reps,) for t in ce])):
+        judge(rep, 'competing-errors', [t], res[:1])
+        rep.evaluations += reps - 1
+        if len(set(res)) > 1:
+            key = hashlib.sha1(t.encode()).hexdigest()[:12]
+            a, b = sorted(set(res))[:2]
+            rep.fail(Failure(PROP, 'C12|competing-errors|%s|nondeterministic-verdict' % key, {'text': t, 'repetitions': reps}, a, b, {'id': 0, 'limits': {}, 'steps': [{'feed': t}]}))
     run_family(rep, 'never-evaluated', NEVER_EVALUATED, 1)
     scripts, book = corpus(tier)
     muts = []
